@@ -183,7 +183,7 @@ PROPS = {
     },
     "C16": {
         "level": "model_checking",
-        "kani": ["c16_rp64", "c16_rp62"],
+        "kani": ["c16_rp64", "c16_rp62", "c16_jive"],
         "verus": [],
         "level_text": "Sponge rules of Rp64_256 (capacity initialisation, 7-byte chunking, single padding byte, rate-block "
                       "boundaries, merge == hash_elements of 8, merge_with_int split at the modulus) as contracts on the "
@@ -192,11 +192,13 @@ PROPS = {
         "level_note": "PARTIAL: the permutation itself (S-box, inverse S-box chain, frequency-domain MDS vs the MDS matrix, "
                       "round constants vs the publication) is NOT under contract - SAT cannot decide the multiplications "
                       "and Verus rejects the slice patterns / closures of that code. Rp62_248 sponge rules are under the "
-                      "same contracts; the Jive variant is not under contract.",
+                      "same contracts; of the Jive variant (RpJive64_256) the compression rules of merge and merge_with_int "
+                      "(state loading, element count, Jive summation over any permutation) are under contract, its "
+                      "hash / hash_elements sponge rules are not.",
     },
     "C17": {
         "level": "model_checking",
-        "kani": ["c16_rp64", "c16_rp62", "c15_blake"],
+        "kani": ["c16_rp64", "c16_rp62", "c16_jive", "c15_blake"],
         "verus": [],
         "level_text": "Necessary condition decided by contracts: the encoding handed to the permutation / primitive is "
                       "injective on the structured families (zero-extensions, chunk boundaries, trailing zero elements, "
